@@ -228,7 +228,7 @@ structure Sap where
   servers : List Txn := []                    -- serverTransactions
   devInfo : List (Peer × DeviceInfo) := []    -- deviceInfoCache (by address)
   dcc : Dcc := .enable
-deriving Repr, Inhabited
+deriving DecidableEq, Repr, Inhabited
 
 def Sap.init : Sap := {}
 
